@@ -202,39 +202,7 @@ func checkC06(c *Check) {
 		}
 	}
 
-	// drainAndResetHoldTimer: Stop, drain on failure, Reset(f.holdTime)
-	if d := p.Fn("fsm.drainAndResetHoldTimer"); d != nil {
-		// decided under the assumption the callers establish (hold time != 0)
-		da := NewAnalysis(p, d)
-		da.OpaqueFields = map[string]bool{"fsm.holdTime": true}
-		da.AtomHook = rangeHook(isHold, isRange(1, posInf))
-		da.EventArgs = p.timerEventArgs
-		da.Run()
-		resets := p.callsIn(d, descIs("time.Timer.Reset"))
-		ok := len(resets) >= 1 && len(da.Returns) > 0 && len(da.Undecided) == 0
-		for _, r := range da.Returns {
-			if !r.State.must["call:time.Timer.Reset(holdTimer)"] {
-				ok = false
-			}
-		}
-		for _, rs := range resets {
-			for i, st := range da.At[rs.(ssa.Instruction)] {
-				args := da.callArgsAt(rs)[i]
-				if !st.must["call:time.Timer.Stop(holdTimer)"] || !(len(args) == 2 && isHold(args[1])) {
-					ok = false
-				}
-			}
-		}
-		c.require(ok, "C06.2 timer-arming", "fsm.drainAndResetHoldTimer", "Stop then Reset(f.holdTime)", p.Pos(d.Pos()), "for a non-zero hold time the hold timer is stopped and then reset to the negotiated hold time on every path")
-		drained := false
-		allInstrs(d, func(in ssa.Instruction) {
-			if u, isU := in.(*ssa.UnOp); isU && u.Op.String() == "<-" && underFailedStop(c, d, in) {
-				drained = true
-			}
-		})
-		c.require(drained, "C06.2 timer-arming", "fsm.drainAndResetHoldTimer", "drain after failed Stop", p.Pos(d.Pos()),
-			"when Stop() reports the timer already fired its channel is drained before Reset (go.mod is below go1.23: a stale tick would otherwise expire the session right after a message arrived)")
-	}
+	c.holdTimerDrainAndReset("C06.2 timer-arming")
 
 	c.holdTimerRestartDiscipline("C06.2 restart-discipline")
 	// keepalive timer: reset after every KEEPALIVE sent; manager guarded by hold time
@@ -523,4 +491,48 @@ func (c *Check) holdTimerRestartDiscipline(rule string) {
 			c.require(ok, rule, p.Name(sf), name, p.Pos(sf.Pos()), want)
 		}
 	}
+}
+
+// holdTimerDrainAndReset: for a non-zero hold time drainAndResetHoldTimer
+// stops the timer, drains a tick that already fired (go.mod is below go1.23,
+// so Stop/Reset do not clear the channel) and resets it to the negotiated
+// value. Without the drain a stale tick expires a live session right after a
+// message arrived (and, in Established, the UPDATEs that follow are lost).
+func (c *Check) holdTimerDrainAndReset(rule string) {
+	p := c.P
+	isHold := func(e *Expr) bool { return isLoadOfField(e, "holdTime") && e.Args[0].Aux == "fsm" }
+	// drainAndResetHoldTimer: Stop, drain on failure, Reset(f.holdTime)
+	if d := p.Fn("fsm.drainAndResetHoldTimer"); d != nil {
+		// decided under the assumption the callers establish (hold time != 0)
+		da := NewAnalysis(p, d)
+		da.OpaqueFields = map[string]bool{"fsm.holdTime": true}
+		da.AtomHook = rangeHook(isHold, isRange(1, posInf))
+		da.EventArgs = p.timerEventArgs
+		da.Run()
+		resets := p.callsIn(d, descIs("time.Timer.Reset"))
+		ok := len(resets) >= 1 && len(da.Returns) > 0 && len(da.Undecided) == 0
+		for _, r := range da.Returns {
+			if !r.State.must["call:time.Timer.Reset(holdTimer)"] {
+				ok = false
+			}
+		}
+		for _, rs := range resets {
+			for i, st := range da.At[rs.(ssa.Instruction)] {
+				args := da.callArgsAt(rs)[i]
+				if !st.must["call:time.Timer.Stop(holdTimer)"] || !(len(args) == 2 && isHold(args[1])) {
+					ok = false
+				}
+			}
+		}
+		c.require(ok, rule, "fsm.drainAndResetHoldTimer", "Stop then Reset(f.holdTime)", p.Pos(d.Pos()), "for a non-zero hold time the hold timer is stopped and then reset to the negotiated hold time on every path")
+		drained := false
+		allInstrs(d, func(in ssa.Instruction) {
+			if u, isU := in.(*ssa.UnOp); isU && u.Op.String() == "<-" && underFailedStop(c, d, in) {
+				drained = true
+			}
+		})
+		c.require(drained, rule, "fsm.drainAndResetHoldTimer", "drain after failed Stop", p.Pos(d.Pos()),
+			"when Stop() reports the timer already fired its channel is drained before Reset (go.mod is below go1.23: a stale tick would otherwise expire the session right after a message arrived)")
+	}
+
 }
